@@ -645,6 +645,10 @@ def run(ctx):
     helpers.interpolate_pva(ctx, py, "C11")
     ctx.guard(_standin, ctx, py)
 
+    # the recursion applies kalman.correct by its contract (C07): contract re-established here (algebra + float stand-in)
+    from props import C07 as _C07
+    ctx.guard(_C07._algebra, ctx, py)
+    ctx.guard(_C07._standin, ctx, py)
     # the joint model is assembled from the sensor models' layout (C14's contract), re-established here on a few masks
     from props import C14 as _C14
     ctx.guard(_C14.layout_subset, ctx, py, "C11")
